@@ -554,9 +554,9 @@ KERNEL_STATUS_NOTE = {
     "a": ["byte_stream_split encode/decode float (sse, avx2, avx512)", "byte_stream_split encode/decode double (sse, avx2)",
           "unpack_bools (sse, avx2, avx512)", "pack_bools (sse, avx2: inputs 0/1; avx512)", "prefix_sum_i32/i64 (sse, avx2, avx512)",
           "gather_i32/float, gather_i64/double (sse, avx2, avx512)", "count_non_nulls (sse)", "build_null_bitmap (sse)",
-          "fill_def_levels (sse)", "memset/memcpy helpers (sse, avx2, avx512)"],
-    "b": ["find_run_length_i32 (sse, avx2, avx512)", "match_length (sse)", "match_copy (sse)", "crc32c (sse)",
-          "fixed-width bit unpackers (3 sse, 4 avx2, 3 avx512)"],
+          "fill_def_levels (sse)", "memset/memcpy helpers (sse, avx2, avx512)", "find_run_length_i32 (sse, avx2, avx512)",
+          "match_length (sse)", "match_copy (sse)", "crc32c (sse)", "fixed-width bit unpackers (3 sse, 4 avx2, 3 avx512)"],
+    "b": [],
     "c": [],
 }
 
